@@ -148,7 +148,8 @@ theorem insertAt_wrapNest (S : Schema) (mid : List Node) (as : List (TypeId × A
     rw [innerParent_last as none w hlast] at ht
     simp only [Option.some.injEq] at ht
     subst ht; exact hv)
-  simp only [Slice.insertAt, Nat.add_zero, insertInto_wrapNest S mid as none hf]
+  rw [insertAt_of_le (by simp only [Slice.size, fsize_wrapNest, fsize_nil]; omega)]
+  simp only [Slice.insertAtIn, Nat.add_zero, insertInto_wrapNest S mid as none hf]
 
 /-! ### the filled nest is a valid payload -/
 
